@@ -310,6 +310,34 @@ fn mode_stream(a: &Args) {
             let out: Vec<u32> = r.as_ref().map(|v| vec![*v]).unwrap_or_default();
             tr.ev(json!({"op":"mapf","api":"Pipeline::execute_single(BatchMapStage)","in":[x],"fail":fail,"ok":r.is_ok(),"out":out}));
         }
+        // one stage over the whole vector, built through PipelineBuilder; an item in the MIDDLE sleeps past
+        // the stage timeout (kind S), fails (F / G): the call is an error, nothing is shifted
+        let kind = *rng.pick(&["S", "F", "G"]);
+        let mid = if input.len() >= 3 { vec![input[input.len() / 2]] } else if !input.is_empty() && rng.chance(1, 2) { vec![input[0]] } else { vec![] };
+        let mid = if rng.chance(2, 3) { mid } else { vec![] };
+        let in_flight = *rng.pick(&[1usize, input.len().max(1), input.len() + 1, 10_000]);
+        let pb = zipora::concurrency::PipelineBuilder::new()
+            .buffer_size(*rng.pick(&[1usize, 1000]))
+            .max_in_flight(in_flight)
+            .stage_timeout(Duration::from_millis(STAGE_TIMEOUT_MS))
+            .enable_batching(rng.chance(1, 2))
+            .batch_size(*rng.pick(&[1usize, 2, 100]))
+            .batch_timeout(Duration::from_millis(5))
+            .build();
+        let m2 = mid.clone();
+        let r: ZResult<Vec<u32>> = match kind {
+            "S" => rt.block_on(pb.process_batch(SlowStage::<u32> { slow: mid.clone(), nap: Duration::from_millis(NAP_MS), key: |v: &u32| *v }, input.clone())),
+            "F" => rt.block_on(pb.process_batch(MapStage::new("F".to_string(), move |x: u32| f_fn(x, &m2)), input.clone())),
+            _ => rt.block_on(pb.process_batch(MapStage::new("G".to_string(), move |x: u32| g_fn(x, &m2)), input.clone())),
+        };
+        let (ff, fg, sl): (Vec<u32>, Vec<u32>, Vec<u32>) = match kind {
+            "S" => (vec![], vec![], mid.clone()),
+            "F" => (mid.clone(), vec![], vec![]),
+            _ => (vec![], mid.clone(), vec![]),
+        };
+        tr.ev(json!({"op":"batch1","api":"PipelineBuilder..build().process_batch","kind":kind,"in":input,"failF":ff,"failG":fg,"slow":sl,
+                     "ok":r.is_ok(),"out":r.unwrap_or_default(),"max_in_flight":in_flight}));
+        c.calls += 1;
         // the predicate P of the specification: x % 3 != 0
         let r = rt.block_on(p.process_batch(FilterStage::new("flt".to_string(), |x: &u32| *x % 3 != 0), input.clone()));
         let out: Vec<Value> = r.as_ref().map(|v| v.iter().map(|o| opt(*o)).collect()).unwrap_or_default();
@@ -716,6 +744,7 @@ fn mode_store(a: &Args) {
                 let rng = rng0.derive(&format!("{name}/{rep}/{tasks}"));
                 let dir = a.out.join(format!("afs-{rep}-{tasks}"));
                 let store: Arc<dyn AsyncBlobStore> = match name {
+                    "async_mem" if rep % 2 == 1 => Arc::new(AsyncMemoryBlobStore::with_capacity(tasks)),
                     "async_mem" => Arc::new(AsyncMemoryBlobStore::new()),
                     "async_file" => match rt.block_on(AsyncFileStore::new(&dir)) {
                         Ok(s) => Arc::new(s),
@@ -1117,7 +1146,11 @@ async fn file_write_history(rng: &mut Rng, path: &Path, rb: usize, ra: usize) ->
         }
     }
     let _ = f.flush().await;
-    let _ = f.sync_all().await;
+    if rng.chance(1, 2) {
+        let _ = f.sync_all().await;
+    } else {
+        let _ = f.sync_data().await;
+    }
     drop(f);
     // observation of where the bytes landed
     let got = std::fs::read(path).unwrap_or_default();
@@ -1197,6 +1230,25 @@ fn mode_aio(a: &Args) {
         let r = rt.block_on(aio.copy(&src, &dst));
         let got = std::fs::read(&dst).unwrap_or_default();
         tr.ev(json!({"op":"copy","src":bytes_json(&data),"ok":r.is_ok(),"n":r.unwrap_or(0),"dst":bytes_json(&got),"rb":rb,"ra":ra}));
+        // FiberFile::copy_to from a position inside the source (after a small read: the read-ahead is ahead)
+        if len > 0 {
+            let pos = rng.below(len as u64 + 1);
+            let dst2 = dir.join("c-dst2.bin");
+            let _ = std::fs::remove_file(&dst2);
+            let (ok, n) = rt.block_on(async {
+                let mut s = aio.open(&src).await?;
+                let mut d = aio.create(&dst2).await?;
+                let mut one = [0u8; 1];
+                let _ = s.read(&mut one).await?;
+                s.seek(tokio::io::SeekFrom::Start(pos)).await?;
+                let n = s.copy_to(&mut d).await?;
+                d.sync_data().await?;
+                ZResult::Ok(n)
+            })
+            .map_or((false, 0), |n| (true, n));
+            let got2 = std::fs::read(&dst2).unwrap_or_default();
+            tr.ev(json!({"op":"copy_from","api":"FiberFile::copy_to","src":bytes_json(&data),"pos":pos,"ok":ok,"n":n,"dst":bytes_json(&got2)}));
+        }
         let p = dir.join("rt.bin");
         let _ = std::fs::remove_file(&p);
         let wok = rt.block_on(aio.write_all(&p, &data)).is_ok();
